@@ -1087,6 +1087,11 @@ func check() int {
 			order = append(order, class)
 		} else if idx(plan) < idx(f.plan) {
 			f.plan, f.res, f.crash = plan, res, crash
+			if curGen != nil {
+				// the worker generation goes with the plan (a violation that needs what earlier runs left in the
+				// process is re-executed as that generation)
+				f.genStart, f.genStride, f.hasGen = curGen.GenStart, curGen.GenStride, true
+			}
 		}
 		f.count++
 	}
